@@ -5,6 +5,7 @@ expressions the C17 power-law theorems are about.
 -/
 import Prs.Generated.FormulasReal
 import Prs.Proofs.Powerlaw
+import Mathlib.Analysis.Complex.Exponential
 
 namespace Prs
 
@@ -39,5 +40,52 @@ theorem gen_mle_cc_eq (c : List ℝ) (cmin : ℝ) :
       = 1 + ((kept c cmin).length : ℝ) / ((kept c cmin).map fun x => Real.log (x / (cmin - 1/2))).sum := by
   unfold Generated.powerlaw_mle_alpha_continuitycorrection kept
   first | rfl | (ring_nf; simp only [mul_comm])
+
+/-! ### the objective of `method="exact"`: the discrete power-law log-likelihood (SciPy's Hurwitz zeta is a parameter) -/
+
+/-- `_discrete_loglikelihood(x, alpha, xmin)`: −n·ln ζ(α, xmin) − α·Σ ln x over the counts ≥ xmin -/
+noncomputable def discreteLogLik (zeta : ℝ → ℝ → ℝ) (x : List ℝ) (α xmin : ℝ) : ℝ :=
+  -((kept x xmin).length : ℝ) * Real.log (zeta α xmin) - α * ((kept x xmin).map Real.log).sum
+
+theorem gen_loglik_eq (zeta : ℝ → ℝ → ℝ) (x : List ℝ) (α xmin : ℝ) :
+    Generated.discrete_loglikelihood zeta x α xmin = discreteLogLik zeta x α xmin := by
+  unfold Generated.discrete_loglikelihood discreteLogLik kept
+  first | rfl | (ring_nf; simp only [mul_comm])
+
+/-- a sum of logarithms of the probability mass function v ↦ v^(−α) / Z -/
+theorem sum_log_pmf (l : List ℝ) (α Z : ℝ) (hZ : 0 < Z) (hl : ∀ v ∈ l, 0 < v) :
+    (l.map fun v => Real.log (v ^ (-α) / Z)).sum = -(l.length : ℝ) * Real.log Z - α * (l.map Real.log).sum := by
+  induction l with
+  | nil => simp
+  | cons v l ih =>
+    have hv : 0 < v := hl v List.mem_cons_self
+    have hp : 0 < v ^ (-α) := Real.rpow_pos_of_pos hv _
+    rw [List.map_cons, List.sum_cons, ih (fun w hw => hl w (List.mem_cons_of_mem _ hw)),
+      Real.log_div hp.ne' hZ.ne', Real.log_rpow hv, List.map_cons, List.sum_cons, List.length_cons]
+    push_cast
+    ring
+
+/-- so `discreteLogLik` IS the log-likelihood of the kept counts under p(v) = v^(−α) / ζ(α, xmin), whenever the normaliser
+is positive and the kept counts are (as counts ≥ xmin > 0 are) -/
+theorem discreteLogLik_eq_sum_log_pmf (zeta : ℝ → ℝ → ℝ) (x : List ℝ) (α xmin : ℝ) (hx : 0 < xmin)
+    (hZ : 0 < zeta α xmin) :
+    discreteLogLik zeta x α xmin = ((kept x xmin).map fun v => Real.log (v ^ (-α) / zeta α xmin)).sum := by
+  rw [sum_log_pmf _ α _ hZ]
+  · rfl
+  · intro v hv
+    have : v ≥ xmin := by simpa [kept] using (List.mem_filter.mp hv).2
+    linarith
+
+/-- the likelihood itself: the product of the probability masses is the exponential of `discreteLogLik` -/
+theorem likelihood_eq_exp_logLik (zeta : ℝ → ℝ → ℝ) (x : List ℝ) (α xmin : ℝ) (hx : 0 < xmin) (hZ : 0 < zeta α xmin) :
+    ((kept x xmin).map fun v => v ^ (-α) / zeta α xmin).prod = Real.exp (discreteLogLik zeta x α xmin) := by
+  rw [discreteLogLik_eq_sum_log_pmf zeta x α xmin hx hZ, Real.exp_list_sum, List.map_map]
+  congr 1
+  apply List.map_congr_left
+  intro v hv
+  have hvx : v ≥ xmin := by simpa [kept] using (List.mem_filter.mp hv).2
+  have hv0 : 0 < v := by linarith
+  simp only [Function.comp]
+  rw [Real.exp_log (div_pos (Real.rpow_pos_of_pos hv0 _) hZ)]
 
 end Prs
